@@ -157,6 +157,29 @@ def handle (m : String) (j : Json) : Option (R Json) :=
       | "option" => return jExcept jVal (optParse eng f v)
       | "argument" => return jExcept jVal (argParse eng f v)
       | s => .error s!"unknown via {s}"
+  | "c07.alpha_ok" => some do
+      -- the hypothesis `AlphaOK` of the constructor theorems, decided on the table of what CPython's
+      -- `str.isalpha` answered (theorem `Props.C07.alpha_table_decides`)
+      let rows ← fArr j "table"
+      let tbl ← rows.toList.mapM fun r => do
+        match r with
+        | .arr #[c, .bool b] => match c.getNat? with
+          | .ok n => pure (Char.ofNat n, b)
+          | .error _ => throw "table: [code point, bool] expected"
+        | _ => throw "table: [code point, bool] expected"
+      return Json.mkObj [("alpha_ok", .bool (alphaTableOK tbl)), ("rows", jNat tbl.length)]
+  | "c07.float_rt" => some do
+      -- the hypotheses of `parse_float_repr` for one float, decided on what CPython answered: `x` and `back`
+      -- are exact tokens of the float and of `float(repr(x))` (`null` = ValueError), `repr` is `repr(x)`
+      let x ← fChars j "x"
+      let rp ← fChars j "repr"
+      let back ← fOptChars j "back"
+      let eng : FloatEng :=
+        { ofStr := fun s => if s == rp then back.map (fun t => ⟨t⟩) else none,
+          ofInt := fun _ => .error (.other "model: not asked"),
+          toInt := fun _ => .error (.other "model: not asked"),
+          repr := fun y => if y.tok == x then rp else [] }
+      return Json.mkObj [("rt_ok", .bool (floatRtB eng ⟨x⟩))]
   | "c07.repr" => some do
       let n ← fInt j "n"
       return jStr (intRepr n)
